@@ -171,6 +171,13 @@ Eigen::Matrix<double, N, N> genCov(vf::Ctx & c, CovInfo & info)
 
 Eigen::Vector3d genVec(vf::Ctx & c, const char * nx, const char * ny, const char * nz)
 {
+  // over the whole range / small (1e-15 .. 1 per component, either sign): a quantity that is nearly but not exactly zero
+  if (c.s.pick("vec_magnitude_class", {5, 1}) == 1) {
+    c.label("vector-with-small-components(1e-15..1)");
+    Eigen::Vector3d v;
+    for (int d = 0; d < 3; ++d) {v[d] = (c.s.flag("vec_small_negative") ? -1.0 : 1.0) * std::pow(10.0, -c.s.uni("vec_small_exp", 0.0, 15.0));}
+    return v;
+  }
   return Eigen::Vector3d(c.s.r(nx, -XMAX, XMAX), c.s.r(ny, -XMAX, XMAX), c.s.r(nz, -XMAX, XMAX));
 }
 
